@@ -606,3 +606,36 @@ package pongo2
 //@   at (*tagMacroNode).call requires {C13} @same-call-as-local arg0 == macro && arg1 == ctx
 //@ func (*tagMacroNode).Execute$1
 //@   at (*tagMacroNode).call requires {C13} @same-call-as-local arg0 == node && arg1 == ctx
+
+// ---- filters are applied in written order (C19) ----
+//@ callers {C19} (*Parser).parseVariableOrLiteralWithFilter (*Parser).parseFactor
+//@ func (*nodeFilteredVariable).Evaluate
+//@   at IEvaluator.Evaluate requires {C19} @base-value-in-this-scope arg0 == v.resolver && arg1 == ctx
+//@   at (*filterCall).Execute requires {C19} @next-filter-on-previous-result-in-same-scope arg0 == v.filterChain[rangeindex + 1] && arg1 == value && arg2 == ctx
+//@   invariant 0 @base-until-first-filter rangeindex == -1 ==> value == lastresult("IEvaluator.Evaluate")
+//@   ensures {C19} @no-filters-returns-base (r1 == nil && len(v.filterChain) == 0) ==> r0 == lastresult("IEvaluator.Evaluate")
+//@ func (*filterCall).Execute
+//@   at IEvaluator.Evaluate requires {C19} @parameter-in-current-scope arg0 == fc.parameter && arg1 == ctx
+//@   at FilterFunction requires {C19} @bound-function-on-input callee == fc.filterFunc && arg0 == v
+//@   at FilterFunction requires {C19} @evaluated-parameter fc.parameter != nil ==> arg1 == lastresult("IEvaluator.Evaluate")
+//@   at FilterFunction requires {C19} @nil-value-without-parameter fc.parameter == nil ==> (arg1 != nil && arg1.val == RVOf(nil))
+//@   ensures {C19} @returns-filter-result r1 == nil ==> r0 == lastresult("FilterFunction")
+//@ func ApplyFilter
+//@   at FilterFunction requires {C19} @registered-function-on-same-values callee == filters[name] && has(filters, name) && arg0 == value && (param != nil ==> arg1 == param) && (param == nil ==> (arg1 != nil && arg1.val == RVOf(nil)))
+//@   ensures {C19} @unknown-filter-is-an-error !has(filters, name) ==> r1 != nil
+//@   ensures {C19} @returns-filter-result has(filters, name) ==> r0 == lastresult("FilterFunction")
+//@ func (*tagFilterNode).Execute
+//@   at ApplyFilter requires {C19} @chain-in-order arg0 == node.filterChain[rangeindex + 1].name
+//@   at ApplyFilter requires {C19} @on-previous-result arg1 == value
+//@   at IEvaluator.Evaluate requires {C19} @parameter-in-current-scope arg1 == ctx
+//@ func RegisterFilter
+//@   ensures {C19} @duplicate-refused old(has(filters, name)) ==> (r0 != nil && mapdom(filters) == old(mapdom(filters)) && mapvals(filters) == old(mapvals(filters)))
+//@   ensures {C19} @registered !old(has(filters, name)) ==> (r0 == nil && has(filters, name) && filters[name] == fn)
+//@ func ReplaceFilter
+//@   ensures {C19} @missing-refused !old(has(filters, name)) ==> (r0 != nil && mapdom(filters) == old(mapdom(filters)) && mapvals(filters) == old(mapvals(filters)))
+//@ func RegisterTag
+//@   ensures {C19} @duplicate-refused old(has(tags, name)) ==> (r0 != nil && mapdom(tags) == old(mapdom(tags)) && mapvals(tags) == old(mapvals(tags)))
+//@ func ReplaceTag
+//@   ensures {C19} @missing-refused !old(has(tags, name)) ==> (r0 != nil && mapdom(tags) == old(mapdom(tags)) && mapvals(tags) == old(mapvals(tags)))
+//@ func (*Parser).parseTagElement
+//@   ensures {C19} @unknown-tag-is-a-compile-error true
